@@ -173,6 +173,7 @@ var keepNamed = map[string]bool{
 	"quorum.IsQuorum": true, "quorum.HasHonest": true, "quorum.CalcQuorumWeight": true, "quorum.CalcByzMaxWeight": true,
 	"quorum.GetWeights": true, "state.OlderThan": true,
 	"randomseed.CalculateRandomSeed": true, "randomseed.RandomSeedToBytes": true,
+	"Electiontrigger.CalcTimeout": true,
 }
 
 // spiPure: interface methods that are observationally pure (DESIGN §7 trusted base)
